@@ -144,9 +144,9 @@ func propTable() map[string]PropSpec {
 		Outside:  []string{"the relabel rule language itself (regexp)", "window values >= 2^32", "/samples/ endpoint aggregation in the coordinator"},
 	}
 	k8sPkg := "tkestack.io/kvass/pkg/shard/kubernetes"
-	k8sSubst := map[string]string{"k8s.io/apimachinery/pkg/api/errors.IsNotFound": k8sPkg + ".vIsNotFound"}
+	k8sSubst := map[string]string{"k8s.io/apimachinery/pkg/api/errors.IsNotFound": k8sPkg + ".vIsNotFound", "sort.Slice": k8sPkg + ".vSortSlice"}
 	K := func(entry string, cosim int, args ...int) HarnessRun {
-		return HarnessRun{Entry: entry, Args: args, Cosim: cosim, Subst: k8sSubst, Unwind: 20}
+		return HarnessRun{Entry: entry, Args: args, Cosim: cosim, Subst: k8sSubst, Unwind: 40}
 	}
 	t["C18"] = PropSpec{
 		ID: "C18", Pkg: k8sPkg, NativeDir: "shard/kubernetes",
